@@ -255,6 +255,33 @@ func C05(r *eng.Run) {
 				cfg.Name(), len(o.Open.Data), len(st.openData), firstDiff(o.Open.Data, st.openData))
 		}
 	}
+	if cfg.App == AppReadMessage && st.msg != nil {
+		// "ReadMessage ... appends received message(s) ... and returns the
+		// result of it and an error": the control frames that arrived between
+		// the fragments before the offending frame come back with the error.
+		var wantCtl [][]byte
+		for _, f := range s.Frames[:k] {
+			if f.Off > st.msg.First.Off && ref.IsControl(f.Op) {
+				wantCtl = append(wantCtl, f.Payload)
+			}
+		}
+		var gotCtl [][]byte
+		for _, x := range o.Recs {
+			if x.Failed && x.Kind == 'C' {
+				gotCtl = append(gotCtl, x.Data)
+			}
+		}
+		same := len(gotCtl) == len(wantCtl)
+		for i := 0; same && i < len(wantCtl); i++ {
+			same = bytes.Equal(gotCtl[i], wantCtl[i])
+		}
+		if !same {
+			r.Failf("controls_before_violation_lost", "%s: %d control frame(s) arrived between the fragments before offending frame %d; the failing call returned %d of them (or other payloads)", cfg.Name(), len(wantCtl), k, len(gotCtl))
+		}
+		if len(wantCtl) > 0 {
+			r.Probe("controls_returned_with_the_error")
+		}
+	}
 	if cfg.App == AppReader && cfg.OnCont {
 		CheckConts(r, cfg, o, &Stream{Frames: s.Frames[:k]}, badOff)
 	}
